@@ -1,18 +1,19 @@
-SPECIFICATION Spec
+SPECIFICATION ASpec
 CONSTANTS
-  Mode = "enum"
-  MaxLen = 2
+  Mode = "ident"
+  MaxLen = 0
   MaxPool = 1
   MaxSize = 64
   Raise = FALSE
   Devs = {"EnumFirstZeroUnsigned", "UnnamedNoAlign", "UnionUnnamedIgnored", "PackedNoFinalAlign"}
   Widths = {}
-  Emit = TRUE
-  CharSigned = FALSE
-  EUSuffixed = {0, 1, 63, 64, 127, 128, 2047, 2048, 4095}
+  Emit = FALSE
+  CharSigned = TRUE
+  EUSuffixed = {}
   GenClasses = {"scalar", "array", "bitfield", "nested", "anon", "alignas", "flex"}
   GenPacked = TRUE
   McSel = "full"
   CheckSim = FALSE
-INVARIANTS Inv_EnumRefine Inv_EmitEnum
+  MaxParams = 12
+  MaxExtra = 4
 CHECK_DEADLOCK FALSE
